@@ -220,6 +220,9 @@ def check_loop(ctx, rep):
                     if isinstance(t, ast.Compare) and len(t.ops) == 1 and isinstance(t.ops[0], (ast.GtE, ast.Gt)) and isinstance(t.left, ast.Name) and t.left.id == LA \
                             and isinstance(t.comparators[0], ast.Constant) and t.comparators[0].value in (0, 0.0):
                         justified = True
+                    if isinstance(t, ast.Compare) and len(t.ops) == 1 and isinstance(t.ops[0], (ast.GtE, ast.Eq)) and isinstance(t.left, ast.Name) and AP is not None and t.left.id == AP \
+                            and isinstance(t.comparators[0], ast.Constant) and t.comparators[0].value in (1, 1.0):
+                        justified = True          # the acceptance probability itself is one
                 child_, p_ = p_, getattr(p_, '_parent', None)
             if not justified:
                 forced.append(st)
